@@ -12,7 +12,7 @@ FUNCTIONS = ['frappy.extparams.StructParam.{__set_name__,finish}', 'frappy.extpa
              'frappy.mixins.HasOutputModule.{initModule,activate_control,deactivate_control,set_control_active}']
 ASSUMPTIONS = ['struct layouts: 3 float members, with a combined read/write method and without; 2 (quick) / 3 (thorough) operations chosen by symbolic selectors, member values symbolic',
                'float-enum label sets from a catalogue; written float symbolic',
-               'limit parameters: _min/_max and _limits with symbolic limit values and symbolic target',
+               'limit parameters: _min/_max, _limits, and both kinds together, with symbolic limit values and symbolic target',
                'control: 1..3 controllers on one output, <= 3 (quick) / 4 (thorough) operations']
 REQUIRED_TAGS = ['struct-op', 'floatenum-op', 'limit-op', 'control-op']
 LIMITS = {'quick': {'max_paths': 30000, 'max_s': 150}, 'thorough': {'max_paths': 300000, 'max_s': 900}}
@@ -31,7 +31,7 @@ def cases(tier):
                         'params': {'combined': combined, 'first': first, 'depth': depth - 1}})
     for name in LABELSETS:
         out.append({'fn': 'run_floatenum', 'id': f'floatenum/{name}', 'params': {'labels': name}})
-    for kind in ('minmax', 'limits', 'min', 'max'):
+    for kind in ('minmax', 'limits', 'min', 'max', 'both'):
         out.append({'fn': 'run_limits', 'id': f'limits/{kind}', 'params': {'kind': kind}})
         out.append({'fn': 'run_limits', 'id': f'limits/{kind}/hook-in-ancestor', 'params': {'kind': kind, 'inherited': True}})
     for n in (1, 2, 3):
@@ -208,12 +208,12 @@ def run_limits(env, p):
     written = []
 
     attrs = {'target': Parameter('t', FloatRange(-1000, 1000), readonly=False, default=0)}
-    if kind in ('minmax', 'min'):
+    if kind in ('minmax', 'min', 'both'):
         attrs['target_min'] = Limit()
-    if kind in ('minmax', 'max'):
+    if kind in ('minmax', 'max', 'both'):
         attrs['target_max'] = Limit()
-    if kind == 'limits':
-        attrs['target_limits'] = Limit()
+    if kind in ('limits', 'both'):
+        attrs['target_limits'] = Limit()      # 'both': a limits tuple AND a min/max pair - the value must respect all of them
 
     def write_target(self, value):
         written.append(value)
@@ -234,15 +234,21 @@ def run_limits(env, p):
     a = env.real('a', -1000, 1000)
     b = env.real('b', -1000, 1000)
     lo, hi = -1000, 1000
+    lo2, hi2 = -1000, 1000
     try:
-        if kind == 'limits':
+        if kind in ('limits', 'both'):
             try:
                 m.write_target_limits((a, b))
                 env.check(a <= b, K + '/inverted-limits-accepted')
                 lo, hi = a, b
             except RangeError:
                 env.check(a > b, K + '/ordered-limits-refused')
-        else:
+        if kind == 'both':
+            lo2 = env.real('c', -1000, 1000)
+            hi2 = env.real('d', -1000, 1000)
+            m.write_target_min(lo2)
+            m.write_target_max(hi2)
+        elif kind != 'limits':
             if 'target_min' in attrs:
                 m.write_target_min(a)
                 lo = a
@@ -261,7 +267,7 @@ def run_limits(env, p):
     except Exception as e:
         env.fail(K + '/target-write-raises/' + type(e).__name__, repr(e))
         return
-    inside = M.And(lo <= x, x <= hi)
+    inside = M.And(lo <= x, x <= hi, lo2 <= x, x <= hi2)
     if accepted:
         env.check(inside, K + '/accepted-outside-current-limits')
         env.check(len(written) == 1, K + '/driver-calls', len(written))
